@@ -228,6 +228,60 @@ theorem updateSnr_harmonic (c : Chan ℝ) (baud : ℝ) (args : List ℝ) (hb : 0
   rw [snrSum_lin _ _ _ hb, snrSum_lin _ _ _ hb, gsnr_harmonic_db c hs ha hn]
   ring
 
+/-- `update_snr`: the lumped penalties add up in inverse linear units, `1/snr_added = Σ 1/sᵢ` -/
+theorem snrAdded_lin (args : List ℝ) (hne : args ≠ []) :
+    db2lin (-(snrAdded args)) = (args.map (fun s => db2lin (-s))).sum := by
+  have hpos : 0 < (args.map (fun s => db2lin (-s))).sum := by
+    cases args with
+    | nil => exact absurd rfl hne
+    | cons a r =>
+      simp only [List.map_cons, List.sum_cons]
+      have h1 := db2lin_pos (-a)
+      have h2 : 0 ≤ (r.map (fun s => db2lin (-s))).sum :=
+        List.sum_nonneg (fun x hx => by
+          obtain ⟨s, _, rfl⟩ := List.mem_map.1 hx
+          exact le_of_lt (db2lin_pos _))
+      linarith
+  simp only [snrAdded, snrAddedLin, Nat.cast_zero, neg_neg]
+  rw [snrAddedLin_eq, zero_add, db2lin_lin2db _ hpos]
+
+/-- the reported OSNR and GSNR after `update_snr`, in inverse linear units:
+`1/x' = 1/x + (baud/12.5e9) · Σ 1/sᵢ` for both figures -/
+theorem updateSnr_lin (c : Chan ℝ) (baud : ℝ) (args : List ℝ) (hb : 0 < baud) (hne : args ≠ []) :
+    db2lin (-(updateSnr c baud args).1) =
+      db2lin (-(c.snrLinDb)) + (args.map (fun s => db2lin (-s))).sum * (baud / 12500000000) ∧
+    db2lin (-(updateSnr c baud args).2.2) =
+      db2lin (-(c.gsnrDb)) + (args.map (fun s => db2lin (-s))).sum * (baud / 12500000000) ∧
+    (updateSnr c baud args).2.1 = c.snrNliDb := by
+  refine ⟨?_, ?_, rfl⟩ <;> simp only [updateSnr] <;> rw [snrSum_lin _ _ _ hb, snrAdded_lin args hne]
+
+/-- `update_snr` can only lower the reported OSNR and GSNR (dB) -/
+theorem updateSnr_le (c : Chan ℝ) (baud : ℝ) (args : List ℝ) (hb : 0 < baud) :
+    (updateSnr c baud args).1 ≤ c.snrLinDb ∧ (updateSnr c baud args).2.2 ≤ c.gsnrDb := by
+  have key : ∀ x : ℝ, snrSum x baud (snrAdded args) ≤ x := by
+    intro x
+    have h := snrSum_lin x baud (snrAdded args) hb
+    have hp : 0 < db2lin (-(snrAdded args)) * (baud / 12500000000) := by
+      have := db2lin_pos (-(snrAdded args)); positivity
+    have : db2lin (-x) ≤ db2lin (-(snrSum x baud (snrAdded args))) := by rw [h]; linarith
+    have := (db2lin_le_iff _ _).1 this
+    linarith
+  simp only [updateSnr]
+  exact ⟨key _, key _⟩
+
+/-- a spectrum through one element: every channel keeps the invariant -/
+theorem applyElems_inv (es : List (Elem ℝ)) (sp : List (Chan ℝ))
+    (h : List.Forall₂ (fun e c => Inv c ∧ RunOk e.ops c) es sp) : ∀ c ∈ applyElems es sp, Inv c := by
+  induction h with
+  | nil => simp [applyElems]
+  | cons hd _ ih =>
+    intro c hc
+    simp only [applyElems, List.zipWith_cons_cons, List.mem_cons] at hc
+    rcases hc with rfl | hc
+    · exact run_inv _ _ hd.1 hd.2
+    · exact ih c hc
+
+
 /-! ### band split and merge -/
 
 /-- a selection keeps every kept channel as it is (nothing else appears) -/
